@@ -32,6 +32,15 @@ type putRecorder struct {
 	mu   sync.Mutex
 	puts map[*[]byte]int // the key keeps the buffer alive, so its address cannot be reused
 	n    int
+
+	// ownership of the pooled buffers: a matcher owns its buffer from Matcher() (pool Get) until its
+	// Close puts it back. A matcher hashing into a buffer it does not own any more shares it with
+	// whichever request the pool hands it to next.
+	owner    map[*[]byte]*storepb.ShardMatcher
+	idx      map[*storepb.ShardMatcher]int
+	foreign  []string
+	uses     int
+	yieldUse func(matcher int) // parks the calling goroutine before a use (nil: no yield)
 }
 
 func (r *putRecorder) reset() {
@@ -41,17 +50,62 @@ func (r *putRecorder) reset() {
 }
 
 func (r *putRecorder) event(site string, v any) {
-	if site != "shard.put" {
-		return
+	switch site {
+	case "shard.get":
+		m, ok := v.(*storepb.ShardMatcher)
+		if !ok || m.VerifBuf() == nil {
+			return
+		}
+		r.mu.Lock()
+		if r.owner == nil {
+			r.owner, r.idx = map[*[]byte]*storepb.ShardMatcher{}, map[*storepb.ShardMatcher]int{}
+		}
+		r.idx[m] = len(r.idx) + 1
+		if prev := r.owner[m.VerifBuf()]; prev != nil {
+			r.foreign = append(r.foreign, fmt.Sprintf("the pool handed the buffer of matcher #%d, which had not returned it, to matcher #%d", r.idx[prev], r.idx[m]))
+		}
+		r.owner[m.VerifBuf()] = m
+		r.mu.Unlock()
+	case "shard.use":
+		m, ok := v.(*storepb.ShardMatcher)
+		if !ok || m.VerifBuf() == nil {
+			return
+		}
+		r.mu.Lock()
+		y, i := r.yieldUse, r.idx[m]
+		r.mu.Unlock()
+		if y != nil && i > 0 {
+			y(i)
+		}
+		r.mu.Lock()
+		r.uses++
+		if r.owner != nil && i > 0 && r.owner[m.VerifBuf()] != m {
+			now := "it is back in the pool"
+			if o := r.owner[m.VerifBuf()]; o != nil {
+				now = fmt.Sprintf("the pool has handed it to matcher #%d", r.idx[o])
+			}
+			r.foreign = append(r.foreign, fmt.Sprintf("matcher #%d hashed a series into its buffer after having returned it (%s)", i, now))
+		}
+		r.mu.Unlock()
+	case "shard.put":
+		b, ok := v.(*[]byte)
+		if !ok || b == nil {
+			return
+		}
+		r.mu.Lock()
+		r.puts[b]++
+		r.n++
+		if r.owner != nil {
+			delete(r.owner, b)
+		}
+		r.mu.Unlock()
 	}
-	b, ok := v.(*[]byte)
-	if !ok || b == nil {
-		return
-	}
+}
+
+func (r *putRecorder) foreignUses() []string {
 	r.mu.Lock()
-	r.puts[b]++
-	r.n++
-	r.mu.Unlock()
+	defer r.mu.Unlock()
+	return append([]string(nil), r.foreign...)
 }
 
 func (r *putRecorder) maxPuts() (int, int) {
@@ -111,6 +165,7 @@ func runC17Shard(x *simkit.Exec) {
 	x.Sample = map[string]any{"dataset": ds.describe(), "proxy": pc.String(), "requests": len(reqs)}
 
 	rec := &putRecorder{puts: map[*[]byte]int{}}
+	yieldUse := x.Bool("yielduse", 1, 2)
 	x.Bubble("shard", func(s *simkit.Sim) {
 		verifhook.Set(&verifhook.Hooks{Event: rec.event})
 		defer verifhook.Set(nil)
@@ -118,6 +173,13 @@ func runC17Shard(x *simkit.Exec) {
 		s.MaxSteps = 8000
 		ctx, cancel := context.WithCancel(context.Background())
 		defer cancel()
+		if yieldUse {
+			// the goroutine of a response set that is about to hash a received series becomes a schedulable
+			// step of its own: the request may end (and close the set) between the receive and the use
+			rec.yieldUse = func(matcher int) {
+				_ = s.Park(ctx, s.OpID(fmt.Sprintf("matcher%d", matcher), "use"))
+			}
+		}
 		s.Go("client", func() {
 			for ri, r := range reqs {
 				for i, c := range cl.clients {
@@ -167,11 +229,17 @@ func runC17Shard(x *simkit.Exec) {
 				if proxySharded > 0 {
 					s.Probe("c17.proxy_side_sharding")
 				}
+				retr := "eager"
+				if pc.Lazy {
+					retr = "lazy"
+				}
+				if f := rec.foreignUses(); len(f) > 0 {
+					s.Violate("shard-buffer-not-shared", retr+":"+ending,
+						"request %d (%s, shard %d/%d by=%v labels=%v, limit=%d, cancel at %d, abort=%v, faults: %s) ended with err=%v; %s\nstores: %v",
+						ri+1, pc, r.shard.ShardIndex, r.shard.TotalShards, r.shard.By, r.shard.Labels, r.limit, r.cancelAt, r.abort, describeFaults(ds, r.faults), err, strings.Join(f, "; "), ds.describe()["stores"])
+					return
+				}
 				if m > 1 {
-					retr := "eager"
-					if pc.Lazy {
-						retr = "lazy"
-					}
 					s.Violate("shard-buffer-returned-at-most-once", retr+":"+ending,
 						"request %d (%s, shard %d/%d by=%v labels=%v, limit=%d, cancel at %d, abort=%v, faults: %s) ended with err=%v; "+
 							"a shard buffer was put back into the proxy's pool %d times without being handed out in between (%d buffers returned in this request)\nstores: %v",
